@@ -289,6 +289,10 @@ func genUndColor(g *vlib.G) {
 		if s.n == 0 {
 			return
 		}
+		// quick tier: the 6-node graphs with an even edge mask (a fixed half).
+		if s.n == 6 && !g.Thorough() && s.mask%2 == 1 {
+			return
+		}
 		plan := undPlan(g, &s)
 		quick6 := s.n == 6 && !g.Thorough()
 		g.Case(key, func(t *vlib.T) {
@@ -338,8 +342,14 @@ func genUndColor(g *vlib.G) {
 }
 
 func genUndColorExact(g *vlib.G) {
+	tomita := vlib.Env("VERIF_CONFIG", "default") != "default"
 	forUndirected(g, 6, func(key string, s gspec) {
 		if s.n == 0 {
+			return
+		}
+		// quick tier, tomita configuration: up to 5 nodes (the 6-node graphs run
+		// in the default configuration; und-topo covers their cliques under tomita).
+		if s.n == 6 && tomita && !g.Thorough() {
 			return
 		}
 		plan := undPlan(g, &s)
